@@ -541,6 +541,14 @@ fn gen_data(r: &mut Xo, n: usize, p: usize, f32m: bool) -> (Vec<Vec<f64>>, &'sta
             }
         }
     }
+    // sometimes one column is constant (a box that is flat in that dimension at every level of the tree)
+    if p > 1 && r.chance(0.1) {
+        let col = r.below(p as u64) as usize;
+        let v = data[0][col];
+        for row in data.iter_mut() {
+            row[col] = v;
+        }
+    }
     // sometimes give every column its own scale and offset (exactly representable factors keep lattices exact)
     if r.chance(0.25) {
         let cs: Vec<f64> = (0..p).map(|_| *r.pick(&[0.125, 1.0, 4.0, 64.0, 1024.0])).collect();
